@@ -250,8 +250,30 @@ func runRtsp(c RtspCase) *pbt.Violation {
 		}
 	}
 	if c.Codecs.Audio == "aac" {
-		if at == nil || !bytes.Equal(at.Config, gen.Asc(c.Codecs.AscObj, c.Codecs.AscFreq, c.Codecs.AscChan)) {
-			return pbt.V("R1/sdp-audio-config", "SDP audio config %v, want %x:\n%s", at, gen.Asc(c.Codecs.AscObj, c.Codecs.AscFreq, c.Codecs.AscChan), r.Body)
+		// the AudioSpecificConfig in force when the SDP was answered: the latest AAC sequence header published before.
+		// (The generator keeps the configuration constant inside an incarnation of this leg: a subscriber that joins
+		// after a mid-stream change is answered the FIRST configuration - known finding R1/sdp-audio-config/first-config-after-mid-stream-change, replay
+		// corpus/c02/known-rtsp-sdp-stale-after-aac-config-change.json; the oracle itself is always active.)
+		av, first, changed := 0, -1, false
+		for k := 0; k < join; k++ {
+			if c.Items[k].Kind == "ash" {
+				av = c.Items[k].Variant
+				if first < 0 {
+					first = av
+				} else if av != first {
+					changed = true
+				}
+			}
+		}
+		want := gen.AscVariant(c.Codecs, av)
+		if at == nil || !bytes.Equal(at.Config, want) {
+			sig := "R1/sdp-audio-config"
+			if changed && at != nil && bytes.Equal(at.Config, gen.AscVariant(c.Codecs, first)) {
+				// exactly the registered known finding: the configuration changed mid-stream and the SDP still carries
+				// the first one.  Any other wrong audio configuration keeps the plain signature.
+				sig = "R1/sdp-audio-config/first-config-after-mid-stream-change"
+			}
+			return pbt.V(sig, "SDP answered after %d published messages carries audio config %v, the AudioSpecificConfig in force (sequence header variant %d) is %x:\n%s", join, at, av, want, r.Body)
 		}
 	}
 	if err := cl.SetupPlay(uri, rtspref.SdpControls(r.Body)); err != nil {
